@@ -46,6 +46,16 @@ def judgeLine (j : J) (op : String) (outs : List String) : J × List String :=
       -- the typed statements came through except that control characters (TAB ...) inside them are gone
       let strip (h : String) : String :=
         hexOrDash (((bytesOfHex h).getD []).filter fun b => b.toNat ≥ 32)
+      let hasSub (h sub : String) : Bool := (h.splitOn sub).length > 1
+      -- (hex text: `2f2f` = //, `2f2a` = /*; only a heuristic for choosing the signature)
+      if e.any (fun h => hasSub h "2f2f" || hasSub h "2f2a") then ({ j with expect := none },
+        [s!"VIOLATION case={j.caseId} sig=console:sql-comment-not-understood expected=[{(" ".intercalate e).take 200}] got=[{(" ".intercalate got).take 200}]"])
+      else
+      let nlToBlank (h : String) : String :=
+        hexOrDash (((bytesOfHex h).getD []).map fun b => if b == 10 then 32 else b)
+      if e.any (fun h => ((bytesOfHex h).getD []).contains 10) && got == e.map nlToBlank then ({ j with expect := none },
+        [s!"VIOLATION case={j.caseId} sig=console:line-break-inside-literal-becomes-blank expected=[{(" ".intercalate e).take 200}] got=[{(" ".intercalate got).take 200}]"])
+      else
       if got == e.map strip then ({ j with expect := none },
         [s!"VIOLATION case={j.caseId} sig=console:control-character-dropped expected=[{(" ".intercalate e).take 200}] got=[{(" ".intercalate got).take 200}]"])
       else ({ j with expect := none },
